@@ -360,16 +360,19 @@ def G.graftPinned (g : G) (x : Nat) (sub : G) : Except Err G := do
 
 def nestedBase : Nat := 100
 
+/-- graft the graph that the nested node `x` stands for -/
+def graftNested (store : Nat → Option G) (g : G) (x : Nat) : Except Err G :=
+  match store (x - nestedBase) with
+  | some sub => g.graft x sub
+  | none => .error .typeError
+
 /-- `flatten(recurse)`: `store v` is the graph held by variable `v`; `fuel` bounds the number of rounds -/
 def flattenLoop (store : Nat → Option G) (recurse : Bool) : Nat → G → Except Err G
   | 0, _ => .error .recursion
   | fuel + 1, g =>
     let nested := g.nodes.seq.filter (· ≥ nestedBase)
     if nested.isEmpty then .ok g else do
-      let g ← nested.foldlM (fun g x =>
-        match store (x - nestedBase) with
-        | some sub => g.graft x sub
-        | none => .error .typeError) g
+      let g ← nested.foldlM (graftNested store) g
       if recurse then flattenLoop store recurse fuel g else .ok g
 
 def G.dependsDirect (g : G) (x y : Nat) : Except Err Bool := do
